@@ -203,7 +203,7 @@ def replay(ctx, path):
     print("implementation:", json.dumps(impl))
     if coq_case:
         rc, out = wc.eval_single(ctx, "C10_replay", coq_case, [
-            ("model", "model_obs (cfg_of_case w) (w_roots w)"),
+            ("model", "model_obs_d (cfg_of_case w) (w_dets w) (w_roots w)"),
             ("model_eq_impl", "case_model_ok w"),
             ("bounds_ok", "c10_bounds_on_obs w"), ("iff_domain", "c10_iff_domain w"), ("iff_ok", "c10_iff_on_obs w"),
             ("spec_ok", "case_spec_ok_C10 w")])
